@@ -593,6 +593,13 @@ func c01RuleSet(r *rng) []c01Method {
 		} else {
 			ms = append(ms, c01Method{Svc: "S3", Name: "Own", Config: append([]c01Binding{own}, adds...)})
 		}
+	case 4:
+		// sibling variables of one node whose patterns open with literals that are prefixes of one another up to
+		// '-' / '.' ('/' sorts after both, so the order of the patterns is not the order of their first literals)
+		ms = append(ms, c01Method{Svc: "S3", Name: "Bk", Bindings: []c01Binding{{Verb: "GET", Tmpl: "/aa/{s1=b/*}"}}},
+			c01Method{Svc: "S3", Name: "BkA", Bindings: []c01Binding{{Verb: "GET", Tmpl: "/aa/{s2=b-c/*}"}}},
+			c01Method{Svc: "S3", Name: "BkD", Bindings: []c01Binding{{Verb: "GET", Tmpl: "/aa/{s3=b.c/*}"}}},
+			c01Method{Svc: "S3", Name: "BkB", Bindings: []c01Binding{{Verb: "GET", Tmpl: "/aa/{s1=bb/*}:v"}}})
 	}
 	return ms
 }
